@@ -23,6 +23,21 @@ ASSUMPTIONS = [
 ]
 
 
+# Crashes of lcm on accepted models that are known findings of C12 (see known_findings.json): a
+# simulation that dies with one of these is outside the domain of the other properties; any OTHER
+# exception raised by lcm on a generated model is reported as a violation of the property under test.
+KNOWN_CRASHES = [
+    ("target_without_model_variable", ["vmap must have at least one non-None value in in_axes"]),
+]
+
+
+def known_crash(detail):
+    for name, pats in KNOWN_CRASHES:
+        if any(p in str(detail) for p in pats):
+            return name
+    return None
+
+
 def describe(mspec, params):
     return {"T": mspec["n_periods"],
             "states": [("c" if G.is_cont(g) else "d") + str(G.gsize(g)) for _, g in mspec["states"]],
@@ -151,16 +166,274 @@ def panel_rows(case, panel):
     return rows
 
 
-def gen_initial_states(rng, mspec, n_agents, on_grid=False):
+def gen_initial_states(rng, mspec, n_agents, on_grid=False, integral=False):
+    """integral=True: continuous states get integer values (passed to lcm as an integer array)"""
     init = []
     for s, g in mspec["states"]:
         pts = G.gpoints(g)
         vals = []
         for _ in range(n_agents):
-            if not G.is_cont(g) or on_grid or rng.random() < 0.4:
+            if G.is_cont(g) and integral:
+                lo, hi = pts[0], pts[-1]
+                vals.append(Fraction(rng.randint(int(lo) - 1, int(hi) + 1)))
+            elif not G.is_cont(g) or on_grid or rng.random() < 0.4:
                 vals.append(rng.choice(pts))
             else:
                 lo, hi = pts[0], pts[-1]
                 vals.append(lo + (hi - lo) * Fraction(rng.randint(-2, 18), 16))
         init.append([s, [q(v) for v in vals]])
     return init
+
+
+# ---------------------------------------------------------------------------------------------
+# simulation family
+# ---------------------------------------------------------------------------------------------
+def target_candidates(mspec):
+    out = []
+    for f in mspec["functions"]:
+        if f["stochastic"]:
+            continue
+        out.append(f["name"])
+    return [n for n in out if not n.endswith("_filter")]
+
+
+def fam_simulate(rng, n, *, name="simulate_vs_spec", max_periods=3, agents=(1, 6), judge=("C02", "C03", "C06", "C13"),
+                 features=None, targets=True):
+    """lcm solve_and_simulate on random models; every panel row judged by the Spec's row oracle.
+    Returns (family, per-judgement violation lists are merged into family.violations with a tag)."""
+    fam = Family(name,
+                 "random whole models (as in solve_vs_spec) simulated with 1-6 agents whose initial states are "
+                 "on and off the grid, random seeds, random additional targets; every (period, agent) row is "
+                 "re-judged by the Spec: admissibility and maximality of the reported choice, the reported "
+                 "value, the next states, the panel structure; distinct = distinct model+params+initial states; "
+                 "non-trivial = >= 2 periods and >= 2 agents")
+    # simulations: filters restrict choices only, so that no agent can reach a state without a
+    # filter-passing choice (that crashes the whole batch: C12 known finding)
+    cases = gen_cases(rng, n, fn="simulate", max_periods=max_periods, features=features, allow_state_exclusion=False)
+    wcases = []
+    for c in cases:
+        m = c["_mspec"]
+        na = rng.randint(*agents)
+        w = wire(c)
+        integral = rng.random() < 0.25
+        w["initial_states"] = gen_initial_states(rng, m, na, on_grid=rng.random() < 0.3, integral=integral)
+        w["int_arrays"] = integral      # integer valued continuous states are passed as integer arrays
+        if rng.random() < 0.5:
+            rng.shuffle(w["initial_states"])          # key order of the mapping is irrelevant
+        w["seed"] = rng.randint(0, 10 ** 6)
+        w["with_solution"] = True
+        w["jit"] = True
+        if targets and rng.random() < 0.6:
+            cand = target_candidates(m)
+            w["additional_targets"] = rng.sample(cand, rng.randint(1, min(3, len(cand))))
+        w["_n_agents"] = na
+        wcases.append(w)
+    ires = run_impl([wire(w) for w in wcases])
+    # rows for the oracle
+    rcases = []
+    for c, w, i in zip(cases, wcases, ires):
+        if isinstance(i, dict) and "error" in i:
+            rcases.append(None)
+            continue
+        rcases.append({"fn": "rows", "model": w["model"], "params": w["params"],
+                       "rows": panel_rows(c, i), "targets": w.get("additional_targets", [])})
+    sres = run_model([r for r in rcases if r is not None])
+    it = iter(sres)
+    out = []
+    for c, w, i, r in zip(cases, wcases, ires, rcases):
+        m = c["_mspec"]
+        T, na = m["n_periods"], w["_n_agents"]
+        fam.count({"py": c["py"], "params": c["params"], "init": w["initial_states"]}, T >= 2 and na >= 2)
+        fam.bump(f"periods={T}")
+        fam.bump(f"agents={na}")
+        d = describe(m, c["_params"])
+        for key in ("filters", "constraints", "stochastic"):
+            if d[key]:
+                fam.bump("with_" + key)
+        if r is None:
+            kc = known_crash(i.get("detail"))
+            item = {"tag": "C12", "case": slim(w), "impl": i, "known_crash": kc,
+                    "what": "lcm raised while simulating a generated model: " + str(i.get("detail"))[:200]}
+            if kc and "C12" not in judge:
+                fam.outside.append(item)
+                fam.bump("lcm_raised:" + kc + " (C12 known finding; outside this property's domain)")
+            else:
+                fam.violations.append(item)
+            out.append(None)
+            continue
+        s = next(it)
+        if isinstance(s, dict) and "error" in s:
+            fam.disagreements.append({"case": slim(w), "spec": s, "what": "the runner could not evaluate the rows"})
+            out.append(None)
+            continue
+        viol = judge_panel(m, w, i, s, fam)
+        for tag, what, detail in viol:
+            if tag in judge:
+                fam.violations.append({"tag": tag, "case": slim(w), "what": what, "detail": detail})
+        if not [v for v in viol if v[0] in judge]:
+            fam.exact += 1
+        out.append((c, w, i, s))
+    return fam, out
+
+
+def judge_panel(m, w, panel, oracle, fam):
+    """-> list of (property tag, what, detail)"""
+    viol = []
+    T = m["n_periods"]
+    na = w["_n_agents"]
+    cols = panel["columns"]
+    snames = [s for s, _ in m["states"]]
+    cnames = [c_ for c_, _ in m["choices"]]
+    targets = w.get("additional_targets", [])
+    # ---- C13: structure ------------------------------------------------------------------
+    if panel["n_rows"] != T * na:
+        viol.append(("C13", f"{panel['n_rows']} rows for {T} periods x {na} agents", None))
+        return viol
+    if panel["index_names"] != ["period", "initial_state_id"]:
+        viol.append(("C13", f"index names {panel['index_names']}", None))
+    exp_index = [[t, i] for t in range(T) for i in range(na)]
+    if panel["index"] != exp_index:
+        viol.append(("C13", "index is not (period, initial_state_id) in period-major order", {"index": panel["index"][:8]}))
+        return viol
+    exp_cols = {"value", "_period", *snames, *cnames, *targets}
+    if set(cols) != exp_cols:
+        viol.append(("C13", f"columns {sorted(cols)} but expected {sorted(exp_cols)}", None))
+        return viol
+    for r, (t, i) in enumerate(exp_index):
+        if unq(cols["_period"][r]) != t:
+            viol.append(("C13", f"_period column is {cols['_period'][r]} in row (period {t}, agent {i})", None))
+            break
+    init = {k: v for k, v in w["initial_states"]}
+    for r, (t, i) in enumerate(exp_index):
+        o = oracle[r]
+        tag_row = {"row": [t, i], "states": {s: cols[s][r] for s in snames}, "choices": {c_: cols[c_][r] for c_ in cnames},
+                   "value": cols["value"][r], "oracle": o}
+        # ---- C03: law of motion ------------------------------------------------------------
+        if t == 0:
+            for s in snames:
+                if close(cols[s][r], init[s][i]) == "diff":
+                    viol.append(("C03", f"period-0 state {s} of agent {i} is {cols[s][r]}, initial state was {init[s][i]}", tag_row))
+        if t + 1 < T:
+            r2 = (t + 1) * na + i
+            rows = {k: v for k, v in o["rows"]}
+            for s, nv in o["next"]:
+                got = cols[s][r2]
+                if nv is None:
+                    row = rows.get(s)
+                    lab = unq(got)
+                    ok = (isinstance(row, list) and lab is not None and not isinstance(lab, str)
+                          and lab.denominator == 1 and 0 <= lab < len(row) and unq(row[int(lab)]) > 0)
+                    if isinstance(row, list) and not ok:
+                        viol.append(("C03", f"stochastic state {s}: next value {got} has no positive probability in the row {row} selected by agent {i}'s period-{t} variables", tag_row))
+                elif nv != "undefined":
+                    if close(got, nv) == "diff":
+                        viol.append(("C03", f"state {s} of agent {i} in period {t + 1} is {got}, the transition function gives {nv}", tag_row))
+        # ---- C13: targets ---------------------------------------------------------------------
+        for tn, tv in o["targets"]:
+            if tv != "undefined" and close(cols[tn][r], tv) == "diff":
+                viol.append(("C13", f"target column {tn} is {cols[tn][r]} in row (period {t}, agent {i}), the model function gives {tv}", tag_row))
+        # ---- C02: decisions ---------------------------------------------------------------------
+        vmax, u = o["Vmax"], o["U"]
+        if vmax is None:
+            fam.bump("rows_outside_domain")
+            continue
+        if vmax == "-inf":
+            fam.bump("rows_without_admissible_choice")
+            continue
+        fam.bump("rows_judged")
+        on_grid = all(any(close(cols[c_][r], q(pt), 1e-12) != "diff" for pt in G.gpoints(g)) for c_, g in m["choices"])
+        if not on_grid:
+            viol.append(("C02", f"reported choices are not grid values in row (period {t}, agent {i})", tag_row))
+        elif not o["feasible"]:
+            viol.append(("C02", f"reported choice violates a filter or constraint in row (period {t}, agent {i})", tag_row))
+        elif u is None or close(u, vmax, 1e-9) == "diff":
+            viol.append(("C02", f"reported choice has objective {u}, the maximum over admissible grid choices is {vmax} (period {t}, agent {i})", tag_row))
+        elif close(cols["value"][r], vmax, 1e-9) == "diff":
+            viol.append(("C02", f"reported value {cols['value'][r]} differs from the maximum {vmax} (period {t}, agent {i})", tag_row))
+        # ---- C06: value equals the solved array at on-grid states --------------------------------
+        if o["loc"] is not None and "solution" in panel:
+            a = panel["solution"][t]
+            idx = o["loc"]
+            if len(idx) == len(a["shape"]) and all(0 <= x < s_ for x, s_ in zip(idx, a["shape"])):
+                k = 0
+                for x, s_ in zip(idx, a["shape"]):
+                    k = k * s_ + x
+                if a["data"][k] is not None and close(a["data"][k], cols["value"][r], 1e-9) == "diff":
+                    viol.append(("C06", f"simulated value {cols['value'][r]} of an on-grid state differs from the solved array entry {a['data'][k]} at {idx} (period {t}, agent {i})", tag_row))
+                fam.bump("on_grid_rows")
+            else:
+                viol.append(("C05", f"documented position {idx} of an on-grid state is outside the solved array of shape {a['shape']}", tag_row))
+    return viol
+
+
+def fam_same_names(rng, n, judge=("C13", "C02", "C03"), name="same_names_other_bodies"):
+    """Two models with identical function names, signatures and targets but different bodies are
+    simulated one after the other IN THE SAME PROCESS (then the first again): every panel must be
+    the one of its own model (nothing may be remembered from an earlier model or call)."""
+    import copy
+    import exprlang as X
+    fam = Family(name,
+                 "pairs of models that differ only in the bodies of utility / an auxiliary function / a "
+                 "deterministic transition, same function names and additional targets, simulated A, B, A in "
+                 "one worker process; every panel judged row by row by the Spec of ITS model; all non-trivial")
+    seqs = []
+    for _ in range(n):
+        c = gen_cases(rng, 1, fn="simulate", allow_state_exclusion=False)[0]
+        m = c["_mspec"]
+        m2 = copy.deepcopy(m)
+        changed = 0
+        for f in m2["functions"]:
+            if f["stochastic"] or f["name"].endswith(("_filter", "_constraint")):
+                continue
+            g = next((sg for sn, sg in m2["states"] if f["name"] == "next_" + sn), None)
+            if g is not None and not G.is_cont(g):
+                continue                     # keep discrete transitions on the grid
+            if f["name"] == "utility" or rng.random() < 0.6:
+                f["body"] = ["+", ["*", X.c(Fraction(rng.choice([2, 3, -2]))), f["body"]], X.c(Fraction(rng.randint(1, 5), 2))]
+                changed += 1
+        na = rng.randint(2, 4)
+        init = gen_initial_states(rng, m, na, on_grid=False)
+        cand = target_candidates(m)
+        targets = rng.sample(cand, rng.randint(1, min(3, len(cand))))
+        seed = rng.randint(0, 10 ** 6)
+        trio = []
+        for mm in (m, m2, m):
+            trio.append({"fn": "simulate", "model": G.model_json(mm, q), "params": c["params"],
+                         "py": G.render_python(mm), "initial_states": init, "seed": seed,
+                         "additional_targets": targets, "jit": True, "_mspec": mm, "_n_agents": na})
+        seqs.append(trio)
+    flat = [w for trio in seqs for w in trio]
+    ires = run_impl([wire(w) for w in flat], nproc=1)           # one process: calls share its state
+    rcases, idx = [], []
+    for k, (w, i) in enumerate(zip(flat, ires)):
+        if isinstance(i, dict) and "error" in i:
+            continue
+        rcases.append({"fn": "rows", "model": w["model"], "params": w["params"],
+                       "rows": panel_rows({"_mspec": w["_mspec"]}, i), "targets": w["additional_targets"]})
+        idx.append(k)
+    sres = dict(zip(idx, run_model(rcases)))
+    for t_i, trio in enumerate(seqs):
+        fam.count({"py": trio[0]["py"], "py2": trio[1]["py"]})
+        bad = None
+        for j, w in enumerate(trio):
+            k = t_i * 3 + j
+            i = ires[k]
+            if k not in sres:
+                fam.outside.append({"case": slim(w), "impl": i, "what": "lcm raised (C12)"})
+                bad = "skip"
+                break
+            s = sres[k]
+            if isinstance(s, dict) and "error" in s:
+                bad = "skip"
+                break
+            viol = [v for v in judge_panel(w["_mspec"], w, i, s, fam) if v[0] in judge]
+            if viol:
+                tag, what, detail = viol[0]
+                fam.violations.append({"tag": tag, "case": slim(w), "position_in_sequence": "ABA"[j],
+                                       "previous_model_py": trio[0]["py"] if j == 1 else trio[1]["py"] if j == 2 else None,
+                                       "what": what + f"  [call {j + 1} of the sequence A,B,A in one process]", "detail": detail})
+                bad = "viol"
+                break
+        if bad is None:
+            fam.exact += 1
+    return fam
